@@ -183,7 +183,7 @@ def check_c17(tier, seed, V):
                 v = json.loads(line)
                 if v["p"] == "C17":
                     bad.append({"row": 0, "clauses": [v["c"]], "r": {"scenario": v["scn"], "event": v["seq"], "family": fam}})
-    kinds = {k: sum(1 for r in rows if r["kind"] == k) for k in ("retry", "breaker", "backoff")}
+    kinds = {k: sum(1 for r in rows if r["kind"] == k) for k in ("retry", "breaker", "breaker_conc", "backoff")}
     cov = {"states": nrs + nbs, "transitions": len(rows), "traces_validated_against_impl": len(rows) + rounds,
            "samples": [next(r for r in rows if r["kind"] == k and (k != "retry" or r["waits"])) for k in ("retry", "breaker", "backoff")],
            "evaluations": len(rows) + rounds,
@@ -191,6 +191,7 @@ def check_c17(tier, seed, V):
            "rule": "TLC enumerates every RetryWithBackoff scenario (MaxAttempts 0..4 x outcome prefixes x cancellation points x breaker) and every "
                    "CircuitBreaker call sequence on the cool-down lattice {0,C-1,C,C+1} of Retry.tla; each is executed on the real function under "
                    "testing/synctest and judged by RetryCheck.tla (invocation count, result, waits inside the back-off window; breaker invocation/result per call); "
+                   "n concurrent failing callers of one breaker (real goroutines) must be invoked as often as in any sequential order of BreakerRun; "
                    "CalculateBackoff is sampled over configurations x attempt numbers (up to 2e9) and judged by the saturating window operator; acquisition rounds of "
                    "simulated elections are judged by MonitorTrace.tla (jitter 10-100 ms, back-off windows, at most four attempts)",
            "by_kind": kinds, "acquisition_rounds_observed": rounds, "exhaustive": False}
